@@ -223,8 +223,10 @@ func (c *ordCase) cfgOp() string {
 				sub += "0"
 			}
 		}
-		if sub != "" {
+		if sub != "" && c.dir != "c2s" {
 			sub = " sub=" + sub
+		} else {
+			sub = ""
 		}
 		return fmt.Sprintf("cfg tr=%s dir=%s pv=%s np=%d%s", c.tr, c.dir, strings.Join(c.pvs, ","), c.np, sub)
 	}
